@@ -184,3 +184,12 @@ package config
 //@   json TbsSignature ""
 //@   json TbsPublicKeyAlgorithm ""
 //@   json TbsPublicKey ""
+
+// The subject constraints of a profile file (profile.json: subjectAttributes {allowOther, attributes [{attribute,
+// optional}]}) are read straight into these two structs, so the key names are facts about their declarations (C09).
+//@ type ProfileSubjectAttribute @C09
+//@   json Attribute "attribute"
+//@   json Optional "optional"
+//@ type ProfileSubjectAttributes @C09
+//@   json AllowOther "allowOther"
+//@   json Attributes "attributes"
